@@ -47,6 +47,9 @@ pub struct ReplayFile {
     /// the violation is a crash of the process (the trace was recovered from a streamed file)
     #[serde(default)]
     pub crash: bool,
+    /// the violation is undefined behaviour reported by Miri: replayed under Miri
+    #[serde(default)]
+    pub miri: bool,
 }
 
 #[derive(Clone, Debug, serde::Serialize, serde::Deserialize)]
@@ -275,7 +278,7 @@ fn still_fails(t: &Trace, oracle: &str) -> bool {
 
 fn ops_of(e: &mut Event) -> Option<&mut Vec<Op>> {
     match e {
-        Event::Mutate { ops, .. } | Event::NewArena { ops, .. } => Some(ops),
+        Event::Mutate { ops, .. } | Event::NewArena { ops, .. } | Event::Rootless { ops, .. } => Some(ops),
         Event::Collect { then: MarkedAction::Finalize(ops), .. } => Some(ops),
         _ => None,
     }
@@ -285,7 +288,7 @@ fn ops_of(e: &mut Event) -> Option<&mut Vec<Op>> {
 fn crashes(t: &Trace) -> bool {
     let exe = std::env::current_exe().unwrap();
     let tmp = out_dir().join("replays").join(format!(".cand-{}.json", std::process::id()));
-    let rf = ReplayFile { version: 1, property: "?".into(), oracle: "crash".into(), seed: 0, run_index: 0, sub: 0, profile: profile_name().into(), trace: t.clone(), violation: crate::world::Violation { oracle: "crash".into(), event: 0, detail: String::new(), aliases: vec![] }, log_digest: String::new(), minimised: false, probe: None, crash: true };
+    let rf = ReplayFile { version: 1, property: "?".into(), oracle: "crash".into(), seed: 0, run_index: 0, sub: 0, profile: profile_name().into(), trace: t.clone(), violation: crate::world::Violation { oracle: "crash".into(), event: 0, detail: String::new(), aliases: vec![] }, log_digest: String::new(), minimised: false, probe: None, crash: true, miri: false };
     if std::fs::write(&tmp, serde_json::to_vec(&rf).unwrap()).is_err() {
         return false;
     }
@@ -493,6 +496,7 @@ pub fn write_replay(prop: &str, seed: u64, f: &Found) -> PathBuf {
         minimised: false,
         probe: None,
         crash: false,
+        miri: false,
     };
     let full = path.with_extension("full.json");
     std::fs::write(&full, serde_json::to_vec_pretty(&rf).unwrap()).unwrap();
@@ -515,6 +519,9 @@ pub fn check_cmd(args: &[String]) -> i32 {
     let tier = std::env::var("VERIF_TIER").ok().filter(|t| t == "quick" || t == "thorough").unwrap_or_else(|| args.get(1).cloned().unwrap_or("quick".into()));
     let seed: u64 = std::env::var("VERIF_SEED").ok().and_then(|s| s.parse().ok()).unwrap_or(1);
     let workers: u64 = std::env::var("VERIF_WORKERS").ok().and_then(|s| s.parse().ok()).unwrap_or(16);
+    // the workers (and the re-runs that capture a crash) take the tier from the environment
+    // SAFETY: no other thread exists yet
+    unsafe { std::env::set_var("VERIF_TIER", &tier) };
     if !props::CLAIMED.contains(&prop) {
         eprintln!("harness error: no check for property {prop}");
         return 2;
@@ -549,7 +556,7 @@ pub fn check_cmd(args: &[String]) -> i32 {
                 Some(trace) => {
                     let path = dir.join(format!("{prop}-crash-s{seed}-i{idx}-{}.json", profile_name()));
                     let n = trace.events.len();
-                    let rf = ReplayFile { version: 1, property: prop.to_string(), oracle: format!("{prop}.crash"), seed, run_index: *idx, sub: 0, profile: profile_name().to_string(), trace, violation: crate::world::Violation { oracle: format!("{prop}.crash"), event: n.saturating_sub(1), detail: msg.clone(), aliases: vec![] }, log_digest: String::new(), minimised: false, probe: None, crash: true };
+                    let rf = ReplayFile { version: 1, property: prop.to_string(), oracle: format!("{prop}.crash"), seed, run_index: *idx, sub: 0, profile: profile_name().to_string(), trace, violation: crate::world::Violation { oracle: format!("{prop}.crash"), event: n.saturating_sub(1), detail: msg.clone(), aliases: vec![] }, log_digest: String::new(), minimised: false, probe: None, crash: true, miri: false };
                     let full = path.with_extension("full.json");
                     let _ = std::fs::write(&full, serde_json::to_vec_pretty(&rf).unwrap());
                     let st = Command::new(&exe).args(["minimize", full.to_str().unwrap(), path.to_str().unwrap()]).stdout(Stdio::null()).stderr(Stdio::null()).status();
@@ -696,7 +703,12 @@ pub fn zero_cells(prop: &str, cells: &BTreeMap<String, u64>) -> Vec<String> {
             for q in ["is_dropped", "upgrade-some", "upgrade-none"] {
                 for st in ["reachable", "weak-only", "destructed", "fresh"] {
                     for p in phases {
-                        universe.push(format!("weakq|{q}|{st}|{p}"));
+                        // cells that only a violation can reach are not part of the universe: a
+                        // destructed target upgraded, a reachable or fresh target refused
+                        let infeasible = matches!((q, st), ("upgrade-some", "destructed") | ("upgrade-none", "reachable") | ("upgrade-none", "fresh"));
+                        if !infeasible {
+                            universe.push(format!("weakq|{q}|{st}|{p}"));
+                        }
                     }
                 }
             }
@@ -725,9 +737,11 @@ pub fn zero_cells(prop: &str, cells: &BTreeMap<String, u64>) -> Vec<String> {
             }
         }
         "C18" => {
-            for k in ["Sized", "Swh", "Slice", "CopySlice", "Str", "StaticSwh", "SwhTokPod", "SwhPodTok"] {
+            for k in ["Sized", "Swh", "Slice", "CopySlice", "Str", "StaticSwh", "SwhTokPod", "SwhPodTok", "SliceZst", "SwhZst", "SwhMeta", "SwhRaw", "SizedRaw", "StrRaw"] {
                 let stages: &[&str] = match k {
-                    "Sized" => &["AbandonNew", "Complete"],
+                    "Sized" | "SizedRaw" | "StrRaw" => &["AbandonNew", "Complete"],
+                    "SwhRaw" => &["AbandonNew", "AbandonAfterHeader", "Complete"],
+                    "SliceZst" => &["AbandonNew", "PanicAt", "Complete"],
                     "CopySlice" | "Str" => &["AbandonNew", "WrongLen"],
                     "StaticSwh" => &["AbandonNew", "AbandonAfterHeader", "Complete"],
                     "SwhTokPod" => &["AbandonNew", "AbandonAfterHeader", "PanicAt", "WrongLen", "Complete"],
@@ -741,9 +755,12 @@ pub fn zero_cells(prop: &str, cells: &BTreeMap<String, u64>) -> Vec<String> {
             }
         }
         "C19" => {
-            for c in ["Erase", "Unsize", "Raw", "Weak", "Thin"] {
+            for c in ["Erase", "Unsize", "Raw", "Weak", "Thin", "Kind"] {
                 for p in phases {
                     universe.push(format!("conv|{c}|{p}"));
+                    if c != "Weak" {
+                        universe.push(format!("wconv|{c}|{p}"));
+                    }
                 }
             }
         }
@@ -844,6 +861,81 @@ pub fn one_cmd(args: &[String]) -> i32 {
     }
     println!("foreign {:?}", bs.foreign);
     if found.is_empty() { 0 } else { 1 }
+}
+
+/// `sim miri-batch <prop> <seed> <from> <count> <dir>` (run under `cargo miri`): free runs of the
+/// property's swarm, shrunk (props::swarm under cfg(miri)), each streamed to
+/// `<dir>/<prop>-i<idx>.stream` before it is executed so that the trace survives if the interpreter
+/// stops the process on undefined behaviour. A clean run removes its stream file. An oracle
+/// violation (the oracles run here too, minus the allocator seam) is written as an ordinary replay
+/// file next to it.
+pub fn miri_batch_cmd(args: &[String]) -> i32 {
+    let prop = &args[0];
+    let seed: u64 = args[1].parse().unwrap();
+    let from: u64 = args[2].parse().unwrap();
+    let count: u64 = args[3].parse().unwrap();
+    let dir = PathBuf::from(&args[4]);
+    let _ = std::fs::create_dir_all(&dir);
+    let mut bad = 0;
+    let (mut events, mut ops, mut collects) = (0u64, 0u64, 0u64);
+    for idx in from..from + count {
+        let rs = crate::rng::run_seed(seed, prop, idx);
+        let (g, suffix, _shape) = props::swarm(prop, rs);
+        let stream = dir.join(format!("{prop}-i{idx}.stream"));
+        run::STREAM_TO.with(|s| *s.borrow_mut() = Some(stream.clone()));
+        let o = run::run_generated(rs, &g, &ecfg(), suffix);
+        run::STREAM_TO.with(|s| *s.borrow_mut() = None);
+        events += o.stats.events;
+        ops += o.stats.ops;
+        collects += o.stats.collect_calls;
+        match &o.viol {
+            Some(v) if props::owns_any(prop, v).is_some() => {
+                bad += 1;
+                let path = dir.join(format!("{prop}-i{idx}.oracle.json"));
+                let rf = ReplayFile { version: 1, property: prop.to_string(), oracle: v.oracle.clone(), seed, run_index: idx, sub: 0, profile: "checked".into(), trace: o.trace.clone(), violation: v.clone(), log_digest: format!("{:016x}", o.digest), minimised: false, probe: None, crash: false, miri: false };
+                let _ = std::fs::write(&path, serde_json::to_vec_pretty(&rf).unwrap());
+                println!("MIRI-ORACLE {prop} index {idx} {} event {}: {} [{}]", v.oracle, v.event, v.detail, path.display());
+            }
+            _ => {}
+        }
+        let _ = std::fs::remove_file(&stream);
+        println!("MIRI-RUN {prop} index {idx} events {} ops {} digest {:016x}", o.stats.events, o.stats.ops, o.digest);
+    }
+    println!("MIRI-DONE {prop} from {from} count {count} events {events} ops {ops} collect_calls {collects} oracle_violations {bad}");
+    if bad > 0 { 1 } else { 0 }
+}
+
+/// `sim stream2replay <prop> <seed> <idx> <stream file> <out> <detail>`: what a run that the
+/// interpreter stopped had streamed so far becomes a replay file (marked `miri`).
+pub fn stream2replay_cmd(args: &[String]) -> i32 {
+    let prop = &args[0];
+    let seed: u64 = args[1].parse().unwrap();
+    let idx: u64 = args[2].parse().unwrap();
+    let Some(trace) = std::fs::read_to_string(&args[3]).ok().and_then(|t| run::trace_from_stream(&t)) else {
+        eprintln!("harness error: cannot rebuild a trace from {}", args[3]);
+        return 2;
+    };
+    let n = trace.events.len();
+    let rf = ReplayFile {
+        version: 1,
+        property: prop.to_string(),
+        oracle: format!("{prop}.miri"),
+        seed,
+        run_index: idx,
+        sub: 0,
+        profile: "miri".into(),
+        trace,
+        violation: crate::world::Violation { oracle: format!("{prop}.miri"), event: n.saturating_sub(1), detail: args.get(5).cloned().unwrap_or_default(), aliases: vec![] },
+        log_digest: String::new(),
+        minimised: false,
+        probe: None,
+        crash: true,
+        miri: true,
+    };
+    match std::fs::write(&args[4], serde_json::to_vec_pretty(&rf).unwrap()) {
+        Ok(()) => 0,
+        Err(_) => 2,
+    }
 }
 
 /// `sim digest <prop> <seed> <from> <count>`: per-index digests, for the determinism proof.
